@@ -1,10 +1,12 @@
 //! vf-common: checks that only need `datafusion-common` (C12 C34 C42a C43a C52).
 mod c12;
+mod c34;
 mod c52;
 
 fn main() {
     vf_kit::dispatch! {
         "c12" => c12::C12,
+        "c34" => c34::C34,
         "c52" => c52::C52,
     }
 }
